@@ -352,6 +352,7 @@ CODES = {1: "generator: matrix is not an isometry (harness defect)", 2: "post-se
          9: "reference table does not sum to one (model defect)",
          10: "coefficient-extraction formula (repaired) differs from the dilation reference (model defect)",
          21: "get_particle_detection_probability (coefficient-extraction path)", 22: "fock_probabilities (coefficient-extraction path)",
+         23: "norm = sum of fock_probabilities (coefficient-extraction path)",
          31: "rows handed to the probability routine vs table keys (model)"}
 
 
@@ -434,10 +435,7 @@ def dbg(msg):
 
 def run(chk: Check):
     dbg("proofs")
-    if os.environ.get("C05_DEV_SKIP_PROOFS"):  # development only: never set by ./check users
-        chk.proof_broken = ["proofs skipped (C05_DEV_SKIP_PROOFS)"]
-    else:
-        chk.proofs()
+    chk.proofs()
     dbg("proofs done")
     rng = chk.rng
     Tq = chk.thorough
@@ -527,9 +525,6 @@ def run(chk: Check):
     n_ps = len(reqs) - n_corpus - n_feature
 
     dbg('impl: %d cases' % len(reqs))
-    if os.environ.get('C05_DEV_LIMIT'):
-        k = int(os.environ['C05_DEV_LIMIT'])
-        reqs, metas = reqs[:k], metas[:k]
     # dilation requests are derived from the generated cases (no implementation output needed)
     dil_reqs, dil_meta = [], []
     for m in metas:
@@ -604,7 +599,7 @@ def run(chk: Check):
             if sum(m["s"]) >= 2 and m["d"] >= 2:
                 nontrivial.add((m["d"], tuple(m["s"]), m["loss"], str(m["ov"]), str(m["steps"])))
             for c in codes:
-                if c in (21, 22):
+                if c in (21, 22, 23):
                     d2_hits += 1
                     chk.violation(KEY_D2, "%s differs from the dilation (and from the loop-hafnian / tensor-permanent interfaces) and equals the coefficient-extraction formula with B_m = G*outer(v, conj v): complex non-uniform loss or complex Gram matrix" % CODES[c],
                                   dict(describe(m), interface=CODES[c]))
